@@ -89,6 +89,8 @@ class FuncResult(object):
         self.min_sp = 0
         self.ins_visited = 0
         self.assumed_indexed = 0
+        self.callargs = []       # (ins, target, {argreg: value})
+        self.escapes = []        # (ins, value) : symbol addresses stored to memory
         self.reg_at = {}         # optional: ins addr -> regs dict (only if keep_regs)
 
 
@@ -377,6 +379,7 @@ class Interp(object):
                     tgt = ("ind", None)
             if res is not None:
                 res.calls.append((i, tgt))
+                res.callargs.append((i, tgt, {r: regs[r] for r in ("RDI", "RSI", "RDX", "RCX", "R8", "R9")}))
             sm = self.summary_of(tgt) if tgt else SYSV
             if sm is None:
                 sm = SYSV
@@ -472,7 +475,12 @@ class Interp(object):
         elif op in ("MOV64mr", "MOV32mr", "MOV16mr", "MOV8mr"):
             av = self.addr_of(regs, i)
             sz = {"MOV64mr": 8, "MOV32mr": 4, "MOV16mr": 2, "MOV8mr": 1}[op]
-            self.store(regs, stack, i, av[0], av[1], sz, self.val(regs, i.reg(5)) if sz == 8 else TOP, res)
+            sv = self.val(regs, i.reg(5)) if sz == 8 else TOP
+            if res is not None and sz == 8 and self.slot_key(av[0]) is None:
+                rs = roots(sv)
+                if rs and any(isinstance(t, tuple) and t[0] == "sym" for t in rs):
+                    res.escapes.append((i, sv))
+            self.store(regs, stack, i, av[0], av[1], sz, sv, res)
         elif op in ("MOV64mi32", "MOV32mi", "MOV16mi", "MOV8mi"):
             av = self.addr_of(regs, i)
             sz = {"MOV64mi32": 8, "MOV32mi": 4, "MOV16mi": 2, "MOV8mi": 1}[op]
